@@ -90,6 +90,28 @@ type thread struct {
 	name    string
 	key     string // stable name: parent's key + index among the parent's children
 	nspawn  int
+	held    []heldLock // model locks granted to this thread and not yet released by it
+}
+
+// heldLock: one lock this thread was granted. Only consulted while a thread is torn down: code
+// of the shape "Unlock(); defer Lock()" re-locks in a deferred call, which an aborted thread
+// skips (park ends it), so the matching deferred Unlock must skip the real mutex too.
+type heldLock struct {
+	p    unsafe.Pointer
+	read bool
+}
+
+// release forgets one grant of (p, read); reports whether the thread had it. s.lk held.
+//
+//go:norace
+func (t *thread) release(p unsafe.Pointer, read bool) bool {
+	for i := len(t.held) - 1; i >= 0; i-- {
+		if t.held[i].p == p && t.held[i].read == read {
+			t.held = append(t.held[:i], t.held[i+1:]...)
+			return true
+		}
+	}
+	return false
 }
 
 // Decision records one scheduling decision: N alternatives in canonical order, of
@@ -957,10 +979,13 @@ func (s *sched) apply(tr trans) {
 	switch o.kind {
 	case opLock:
 		o.mu.held = true
+		a.held = append(a.held, heldLock{unsafe.Pointer(o.mu), false})
 	case opRLock:
 		o.rw.readers++
+		a.held = append(a.held, heldLock{unsafe.Pointer(o.rw), true})
 	case opWLock:
 		o.rw.writer = true
+		a.held = append(a.held, heldLock{unsafe.Pointer(o.rw), false})
 		if o.rw.pendingW > 0 {
 			o.rw.pendingW--
 		}
@@ -1317,15 +1342,23 @@ func MuLock(st *MuState) {
 	}
 }
 
+// MuUnlock (like RWUnlock, RWRUnlock) reports whether the real mutex is to be unlocked too: always,
+// except in a thread that is being torn down and never got the lock (see heldLock).
+//
 //go:norace
-func MuUnlock(st *MuState) {
+func MuUnlock(st *MuState) bool {
 	if t := cur(); t != nil {
 		s.lk.lock()
+		defer s.lk.unlock()
+		had := t.release(unsafe.Pointer(st), false)
+		if !had && (t.aborted || t.epoch != s.epoch) {
+			return false
+		}
 		if st.epoch == t.epoch {
 			st.held = false
 		}
-		s.lk.unlock()
 	}
+	return true
 }
 
 //go:norace
@@ -1339,14 +1372,19 @@ func RWRLock(st *RWState) {
 }
 
 //go:norace
-func RWRUnlock(st *RWState) {
+func RWRUnlock(st *RWState) bool {
 	if t := cur(); t != nil {
 		s.lk.lock()
+		defer s.lk.unlock()
+		had := t.release(unsafe.Pointer(st), true)
+		if !had && (t.aborted || t.epoch != s.epoch) {
+			return false
+		}
 		if st.epoch == t.epoch && st.readers > 0 {
 			st.readers--
 		}
-		s.lk.unlock()
 	}
+	return true
 }
 
 //go:norace
@@ -1363,14 +1401,19 @@ func RWLock(st *RWState) {
 }
 
 //go:norace
-func RWUnlock(st *RWState) {
+func RWUnlock(st *RWState) bool {
 	if t := cur(); t != nil {
 		s.lk.lock()
+		defer s.lk.unlock()
+		had := t.release(unsafe.Pointer(st), false)
+		if !had && (t.aborted || t.epoch != s.epoch) {
+			return false
+		}
 		if st.epoch == t.epoch {
 			st.writer = false
 		}
-		s.lk.unlock()
 	}
+	return true
 }
 
 //go:norace
